@@ -739,3 +739,29 @@ Section SMALL.
     destruct H as [HA HB]. destruct (sm_inv_contents _ _ HA), (sm_inv_contents _ _ HB). auto.
   Qed.
 End SMALL.
+
+(* ---------- maybe / either of a non-trivial type: the observable tag and value are std's; the event counts are not ---------- *)
+Definition mobs2 (s : mobj * mobj * ncnt) : option Z * option Z := (m_obs (fst (fst s)), m_obs (snd (fst s))).
+Lemma mstep_obs s o : mobs2 (mstep s o) = mspec_step (mobs2 s) o.
+Proof.
+  destruct s as [[[ha sa va] [hb sb vb]] c]. unfold mobs2, m_obs.
+  destruct o; simpl; unfold m_assign; simpl; destruct ha, hb; reflexivity.
+Qed.
+Lemma mrun_obs ops : mobs2 (mrun ops) = mspec_run ops.
+Proof.
+  unfold mrun, mspec_run.
+  exact (fold_inv (fun s m => mobs2 s = m) mstep mspec_step
+           (fun s m o H => eq_trans (mstep_obs s o) (f_equal (fun x => mspec_step x o) H)) ops _ _ eq_refl).
+Qed.
+Definition eobs2 (s : eobj * eobj * ncnt) : (Z + Z) * (Z + Z) := (e_obs (fst (fst s)), e_obs (snd (fst s))).
+Lemma enstep_obs s o : eobs2 (enstep s o) = estep (eobs2 s) o.
+Proof.
+  destruct s as [[[la sa va] [lb sb vb]] c]. unfold eobs2, e_obs.
+  destruct o; simpl; unfold e_assign, e_copyctor; simpl; destruct la, lb; reflexivity.
+Qed.
+Lemma enrun_obs ops : eobs2 (enrun ops) = erun ops.
+Proof.
+  unfold enrun, erun. simpl.
+  exact (fold_inv (fun s m => eobs2 s = m) enstep estep
+           (fun s m o H => eq_trans (enstep_obs s o) (f_equal (fun x => estep x o) H)) ops _ _ eq_refl).
+Qed.
